@@ -315,8 +315,8 @@ func WaitGroupWait(w *sync.WaitGroup) {
 //go:norace
 func wgWait(w *sync.WaitGroup) {
 	t := cur()
-	if t == nil {
-		return
+	if t == nil || FreeDaemons {
+		return // degraded mode: the real Wait blocks; the goroutines it waits for run natively
 	}
 	reschedule(t, EvSync)
 	e := wgFind(unsafe.Pointer(w))
